@@ -18,9 +18,9 @@ ASSUMPTIONS = [
 BARE = Cls('WORD')
 QNAME = Cls('NARROW', minus='"')
 # note texts: ASCII blanks only (whether U+00A0 / U+2028 count as indentation is not stated by the property; C13 checks idempotence there)
-TEXT = Cls('ASCII', minus='\\', plus='é')
+TEXT = Cls('ASCII', plus='é')
 KEYS = __import__('harness.common', fromlist=['Enum']).Enum('aZ_9')   # project item keys are dict keys (hashed): enumerated
-EXPR = Cls('ASCII', minus='`\\', plus='é')
+EXPR = Cls('ASCII', minus='`', plus='é')
 
 
 def _case(word, mode):
@@ -215,7 +215,7 @@ def table(body_order, note_form, case='same', K=2, fix=None):
         elif note_form == 'block':
             nt = '  ' + _case('Note', case) + ' {\n' + ws + docs.q_single(txt) + '\n  }\n'
         else:
-            nt = '  ' + _case('note', case) + ": '''\n    " + txt + "\n    second line\n  '''\n"
+            nt = '  ' + _case('note', case) + ': ' + docs.q_triple('\n    ' + txt + '\n    second line\n  ') + '\n'
         idx = '  ' + _case('indexes', case) + ' {\n' + ws + '(id, name) [' + _case('unique', case) + ']\n' + ('\n' if a['blank'] else '') + '    name\n  }\n'
         parts = {'c': cols, 'n': nt if a['b_note'] else '', 'i': idx}
         bodytxt = ''.join(parts[k] for k in body_order)
@@ -509,6 +509,42 @@ def equivalence(K=2):
     return Harness(body, args, describe=lambda a: dict(a), bounds={'K': K})
 
 
+def ref_order(K=1):
+    """references appear in db.refs in source order, whether a standalone Ref comes before or after the table holding an inline one"""
+    args = [('first', 'bool'), ('op', IntRange(0, 2)), ('block', 'bool')] + hole_args('n', K, BARE)
+
+    def build(a):
+        cn = 'c_' + text_of(a, 'n', K)
+        op = OPS[a['op']]
+        st = ('Ref named {\n  b.y ' + op + ' a.' + cn + '\n}\n') if a['block'] else ('Ref named: b.y ' + op + ' a.' + cn + '\n')
+        ta = 'Table a {\n  ' + cn + ' int [ref: - b.z]\n}\n'
+        tb = 'Table b {\n  y int\n  z int [ref: > a.' + cn + ']\n}\n'
+        doc = (st + ta + tb) if a['first'] else (ta + st + tb)
+        r_st = ('ref', op, False, 'named', None, None, None, (('public', 'b', 'y'),), (('public', 'a', cn),))
+        r_a = ('ref', '-', True, None, None, None, None, (('public', 'a', cn),), (('public', 'b', 'z'),))
+        r_b = ('ref', '>', True, None, None, None, None, (('public', 'b', 'z'),), (('public', 'a', cn),))
+        refs = [r_st, r_a, r_b] if a['first'] else [r_a, r_st, r_b]
+        exp = _expect_db(tables=[_table('a', [_col(cn)]), _table('b', [_col('y'), _col('z')])], refs=refs)
+        return doc, exp
+
+    def body(a):
+        doc, exp = build(a)
+        try:
+            db = docs.parse(doc)
+        except Exception:
+            return 'well-formed document rejected'
+        reached()
+        return _compare(db, exp)
+
+    def describe(a):
+        doc, exp = build(a)
+        return {'document': doc, 'difference': _diff_text(doc, exp)}
+
+    h = Harness(body, args, describe=describe, bounds={'K': K})
+    h.build = build
+    return h
+
+
 def instances(tier):
     out = []
 
@@ -595,4 +631,5 @@ def instances(tier):
     if not quick:
         add('others/upper/m2', 'others', {'case': 'upper', 'K': K, 'fix': omasks[2]}, T1)
     add('equivalence', 'equivalence', {'K': 1 if quick else 2}, T1)
+    add('ref_order', 'ref_order', {'K': 1 if quick else 2}, T1)
     return out
